@@ -76,6 +76,7 @@ REGISTRY = {
         ("the output in the other format differs", ALL, lambda e: e["ev"] == "Transform" and e["exit"] == 0, _set("cidAlt", "corrupted"), 2),
         ("a user file touched by a generation", ALL, lambda e: e["ev"] == "Generate" and e["exit"] == 0, _set("userOK", False), 2),
         ("the embedded original document changed", ALL, lambda e: e["ev"] == "Generate" and e["kind"] == "server" and e["exit"] == 0, _set("embOrigCid", "corrupted"), 2),
+        ("a validation recorded as failed", ALL, lambda e: e["ev"] == "Validate" and e["exit"] == 0, _set("exit", 1), 2),
         ("a report for two renderings of one document", ALL, lambda e: e["ev"] == "Diff" and e["reportEmpty"] and e["exit"] == 0, _set("reportEmpty", False), 4),
     ],
     "TraceGoTypes": [("an accepted instance recorded as not decodable", ALL, lambda e: e["ev"] == "Decoded" and e["decodes"], _set("decodes", False), 2)],
